@@ -35,7 +35,21 @@ def _iso_display_whole_second(line):
     return val_of_parts(int(t[1]), int(t[2])) % SEC == 0
 
 
+def _feb30_text(line):
+    """the same defect seen through the parsers: text naming 30 or 31 February of a leap year is accepted"""
+    t = line.split()
+    if t[0] not in ("p_reject", "p_reject_fmt"):
+        return False
+    import re as _re
+    txt = "".join(chr(int(c)) for c in t[-1].strip("[]").split(",") if c)
+    m = _re.match(r"^(-?\d+)-02-(30|31)[T ]", txt)
+    return bool(m) and is_leap(int(m.group(1)))
+
+
 KNOWN = [
+    {"status": "known", "property": "C13", "id": "feb-30-31-leap-year", "pred": _feb30_text,
+     "what": "text naming 30 or 31 February of a leap year is parsed into 1 or 2 March instead of being rejected (the C08 finding "
+             "feb-30-31-leap-year seen through Epoch::from_str / from_format_str; tests/epoch.rs:1092 pins the constructor)"},
     {"status": "known", "property": "C19", "id": "iso8601-vs-display-whole-seconds", "pred": _iso_display_whole_second,
      "what": "Formatter::new(e, ISO8601) prints '.000000000' for epochs with a zero sub-second part while Display omits the fraction "
              "(1900-01-01T00:00:00 TAI): the two outputs differ; Display's form is pinned by tests/epoch.rs:607-611 and the non-optional %f of "
